@@ -27,6 +27,10 @@ pub fn replay(a: &Args) {
     let (mut ser_bad, mut ref_bad, mut drift, mut calls_run) = (0usize, 0usize, 0usize, 0usize);
     let mut drift_samples: Vec<Value> = Vec::new();
     let mut kinds: std::collections::BTreeMap<String, usize> = Default::default();
+    // with --render-trace the final tree of every stride-th history is rendered and logged for RenderTrace, so that the
+    // *rendering* of the enumerated histories (field order, wrappers, String typing) is judged too
+    let mut renders = a.get("render-trace").map(|p| Out::create(&p));
+    let rstride = a.num("render-stride", 1).max(1) as usize;
     for (ci, c) in cases.iter().enumerate() {
         let calls = c["calls"].as_array().expect("calls");
         let mut docs: Vec<(Vec<u8>, ReaderCfg)> = Vec::new();
@@ -58,6 +62,15 @@ pub fn replay(a: &Args) {
         if !ser_ok {
             ser_bad += 1;
             continue;
+        }
+        if let (Some(t), Some(tree), true) = (renders.as_mut(), sess.tree.as_ref(), ci % rstride == 0 && c["indomain"] == true) {
+            let opts = vec![xml_schema_generator::Options::quick_xml_de(), {
+                let mut s2 = xml_schema_generator::Options::serde_xml_rs();
+                s2.sort = xml_schema_generator::SortBy::XmlName;
+                s2
+            }];
+            let texts: Vec<String> = docs.iter().map(|d| String::from_utf8_lossy(&d.0).into_owned()).collect();
+            t.line(&crate::render::render_event(tree, &opts, json!({"docs": texts})));
         }
         let exp = &c["expect"];
         let default_cfg = docs.iter().all(|d| d.1 == ReaderCfg::default_cfg());
@@ -117,6 +130,9 @@ pub fn replay(a: &Args) {
             }
             Outcome::Panic => {}
         }
+    }
+    if let Some(t) = renders {
+        t.finish();
     }
     finish_report("parser", cases.len(), &mismatches, a.get("mismatches"),
         json!({"serializer_failures": ser_bad, "reference_disagreements": ref_bad, "drift": drift,
